@@ -121,7 +121,7 @@ FAMILIES = {
     "C27": ["monitor", "refcount"],
     "C39": ["forward"],
     "C01": ["class", "subscribe"],
-    "C04": ["frame"],
+    "C04": ["frame", "op"],
     "C44": ["frame"],
     "C20": ["class"],
     "C21": ["class"],
@@ -277,6 +277,9 @@ def units_for(prop, tier):
     if prop in ("C28", "C29", "C30", "C31", "C33", "C34", "C35", "C42"):
         # ... and what invoking / cancelling a scheduled item means (Scheduler.invoke_action, ScheduledItem)
         us.append({"runner": "schedbase", "prop": prop, "id": "reactivex/scheduler/scheduler.py::Scheduler.invoke_action+ScheduledItem"})
+    if "monitor" in fams and prop in ("C25", "C26", "C27", "C02", "C03"):
+        # a new disposable IS in a state the monitor contracts start from (constructors)
+        us.append({"runner": "ctor", "prop": prop, "id": "reactivex/disposable/*::__init__"})
     if "refcount" in fams:
         us.append({"runner": "refcount", "prop": prop, "id": "reactivex/disposable/refcountdisposable.py::RefCountDisposable[functional]"})
     if "flatwire" in fams:
